@@ -8,6 +8,7 @@
 //   c10.info   imp|conv BYTES           Hybrid*Info::from_bytes
 //   c10.infonew KEYID SITE TS EPS SENS  HybridConversionInfo::new + to_bytes + from_bytes
 //   c10.stream TY REG LOG CHUNKS        LengthDelimitedStream -> try_flatten_iters -> decrypt (as Query::execute)
+//   c10.query  SZ REG LOG LABELS EXP CHUNKS1 CHUNKS2 CHUNKS3   the real Query::execute on three helpers (see below)
 // REG  = comma list of base-key indices; position in the list = key id of the helper's registry (`-` = no keys)
 // LOG  = comma list of `k:info:plain:enc:ct` = everything that was ever sealed (k = base-key index);
 //        this is the table of the ideal AEAD against which the model decides `open`.
@@ -62,10 +63,10 @@ fn base_keys() -> &'static Vec<(IpaPrivateKey, IpaPublicKey)> {
 }
 
 /// A helper's key registry: key id = position in the list.
-struct Reg(Vec<(IpaPrivateKey, IpaPublicKey)>);
+pub struct Reg(Vec<(IpaPrivateKey, IpaPublicKey)>);
 
 impl Reg {
-    fn parse(s: &str) -> Self {
+    pub fn parse(s: &str) -> Self {
         Reg(parse_nat_list::<usize>(s)
             .into_iter()
             .map(|i| base_keys()[i].clone())
@@ -102,7 +103,7 @@ fn conv_info_str(i: &HybridConversionInfo) -> String {
     )
 }
 
-fn err_str(e: &InvalidHybridReportError) -> String {
+pub fn err_str(e: &InvalidHybridReportError) -> String {
     match e {
         InvalidHybridReportError::NonAsciiString(_) => "err nonascii".into(),
         InvalidHybridReportError::Crypt(CryptError::NoSuchKey(k)) => format!("err nosuchkey {k}"),
@@ -984,6 +985,428 @@ fn gen_stream(rng: &mut Rng, thorough: bool) -> Vec<String> {
         }
         push(&chunks);
     }
+    out
+}
+
+// ------------------------------------------------------------------ c10_query (the real Query::execute)
+//
+//   c10.query SZ REG LOG LABELS EXP CHUNKS1 CHUNKS2 CHUNKS3
+//        SZ      query_size handed to `Query::execute` (the same on the three helpers)
+//        REG/LOG as above; the three helpers share one key registry
+//        CHUNKSh the body helper h receives, as the comma list of chunks in which it arrives
+//        LABELS  three letters, how the generator BUILT helper h's body (spec side, used by the oracle only
+//                and by the harness to decide whom to wait for):
+//                  v  exactly SZ honest records of a consistent replicated sharing, nothing else
+//                  m  malformed where the helper has to read (within the first SZ records / the framing
+//                     before them): the helper must return an error value
+//                  l  SZ honest records followed by something else (more records, garbage, a cut header)
+//                  s  fewer than SZ honest records, clean end of stream
+//        EXP     spec side (oracle only): the non-zero buckets `b:v,…` (`-` = none) of the attribution of the first
+//                SZ reports the generator put into the bodies, computed from their plaintexts
+//        -> `H1=<o> H2=<o> H3=<o>[ hist=<b:v,…>]` (hist: reconstructed result when all three completed), o = `ok` | `err:<Error variant>[:<io kind>][:<report error>]` | `timeout`
+//           | `peer`.  When some helper is labelled m, only the m helpers are awaited (60 s) and the others
+//           are reported as `peer` whatever they do: an honest helper whose peer erred out of the query
+//           waits for it forever (no helper-to-helper message precedes the input phase), which is the
+//           orchestrator's business (query kill), not a defect of the waiting helper. Without an m label all
+//           three are awaited.
+// The test itself lives in hooks/runner.rs (`Query` is private to query::runner).
+
+pub struct QueryReq {
+    pub sz: usize,
+    pub reg: Reg,
+    pub labels: Vec<u8>,
+    pub chunks: [Vec<Vec<u8>>; 3],
+    pub seed: u64,
+}
+
+pub fn parse_query_req(req: &str) -> QueryReq {
+    let t: Vec<&str> = req.split(' ').collect();
+    assert_eq!(t[0], "c10.query");
+    assert_eq!(t.len(), 9, "harness: c10.query takes 8 arguments");
+    let labels = t[4].as_bytes().to_vec();
+    assert!(labels.len() == 3 && labels.iter().all(|l| b"vmls".contains(l)), "harness: bad labels");
+    QueryReq {
+        sz: t[1].parse().unwrap(),
+        reg: Reg::parse(t[2]),
+        labels,
+        chunks: [parse_chunks(t[6]), parse_chunks(t[7]), parse_chunks(t[8])],
+        // PRSS seed of the TestWorld: a function of the request only
+        seed: req.bytes().fold(0xcbf2_9ce4_8422_2325u64, |h, b| (h ^ u64::from(b)).wrapping_mul(0x0000_0100_0000_01B3)),
+    }
+}
+
+/// `err:<variant>` with the io kind and the report parser's / decryptor's error where there is one.
+pub fn query_err_class(e: &Error) -> String {
+    let tag = |r: &InvalidHybridReportError| err_str(r).trim_start_matches("err ").replace(' ', "_");
+    match e {
+        Error::Io(io) => {
+            let inner = io.get_ref().and_then(|b| b.downcast_ref::<InvalidHybridReportError>());
+            match inner {
+                Some(r) => format!("err:Io:{:?}:{}", io.kind(), tag(r)),
+                None => format!("err:Io:{:?}", io.kind()),
+            }
+        }
+        Error::InvalidHybridReport(r) => format!("err:InvalidHybridReport:{}", tag(r)),
+        e => {
+            let d = format!("{e:?}");
+            let k: String = d.chars().take_while(|c| c.is_alphanumeric() || *c == '_').collect();
+            format!("err:{k}")
+        }
+    }
+}
+
+fn frame(r: &[u8]) -> Vec<u8> {
+    let mut v = u16::try_from(r.len()).unwrap().to_le_bytes().to_vec();
+    v.extend_from_slice(r);
+    v
+}
+
+fn frames(rs: &[Vec<u8>]) -> Vec<u8> {
+    rs.iter().flat_map(|r| frame(r)).collect()
+}
+
+/// Encrypted records of one consistent replicated sharing: `recs[h][i]` is helper h's copy of report i.
+struct QBase {
+    recs: [Vec<Vec<u8>>; 3],
+    log: Log,
+    spec: Vec<(u8, u64, u8)>,
+}
+
+/// Attribution of plaintext reports, from the statement of the protocol: a match key that occurs in exactly
+/// two reports adds their value sum (mod 2^3) to the bucket of their breakdown-key sum (mod 2^8).
+fn attribution(spec: &[(u8, u64, u8)]) -> String {
+    let mut hist = std::collections::BTreeMap::<u8, u32>::new();
+    let mut keys: Vec<u64> = spec.iter().map(|s| s.1).collect();
+    keys.sort_unstable();
+    keys.dedup();
+    for k in keys {
+        let rows: Vec<&(u8, u64, u8)> = spec.iter().filter(|s| s.1 == k).collect();
+        if rows.len() == 2 {
+            let bk = rows.iter().map(|r| if r.0 == 0 { r.2 } else { 0 }).fold(0u8, u8::wrapping_add);
+            let v = rows.iter().map(|r| if r.0 == 0 { 0 } else { r.2 }).sum::<u8>() % 8;
+            *hist.entry(bk).or_default() += u32::from(v);
+        }
+    }
+    let nz: Vec<String> = hist.iter().filter(|(_, v)| **v != 0).map(|(b, v)| format!("{b}:{v}")).collect();
+    if nz.is_empty() { "-".into() } else { nz.join(",") }
+}
+
+/// `(event type, match key, breakdown key / trigger value)` per report, shared x = x0 ^ x1 ^ x2 with
+/// helper h holding (x_h, x_{h+1}); encrypted by the real `HybridReport::encrypt` under key id 0.
+fn q_base(spec: &[(u8, u64, u8)], rng: &mut Rng) -> QBase {
+    let mut recs: [Vec<Vec<u8>>; 3] = Default::default();
+    let mut log = Log::default();
+    for (i, &(evt, mk, val)) in spec.iter().enumerate() {
+        let m0 = rng.next_u64();
+        let m1 = rng.next_u64();
+        let m = [m0, m1, mk ^ m0 ^ m1];
+        let bits = btt_bits("8_3", evt);
+        let mask = ((1u16 << bits) - 1) as u8;
+        let b0 = (rng.below(256) as u8) & mask;
+        let b1 = (rng.below(256) as u8) & mask;
+        let b = [b0, b1, (val & mask) ^ b0 ^ b1];
+        for h in 0..3 {
+            let mut mkb = m[h].to_le_bytes().to_vec();
+            mkb.extend_from_slice(&m[(h + 1) % 3].to_le_bytes());
+            let btt = [b[h], b[(h + 1) % 3]];
+            let (bytes, entries) = t8_3::encrypt_real(evt, 0, &mkb, &btt, "meta.com", 100 + i as u64, 0, 0, rng);
+            log.0.extend(entries);
+            recs[h].push(bytes);
+        }
+    }
+    QBase { recs, log, spec: spec.to_vec() }
+}
+
+/// Split `body` into chunks of 1..=max bytes.
+fn rechunk(body: &[u8], max: usize, rng: &mut Rng) -> Vec<Vec<u8>> {
+    let mut chunks = vec![];
+    let mut i = 0;
+    while i < body.len() {
+        let j = (i + 1 + rng.usize_below(max)).min(body.len());
+        chunks.push(body[i..j].to_vec());
+        i = j;
+    }
+    chunks
+}
+
+type Chunks = Vec<Vec<u8>>;
+
+struct QGen<'a> {
+    out: Vec<String>,
+    base: &'a QBase,
+    reg: &'static str,
+    /// number of honest records at the front of the bodies built next (None = all of the base)
+    present: Option<usize>,
+}
+
+impl QGen<'_> {
+    /// `targets`: which helpers get `f(records of that helper)` (label `label`); the others get their
+    /// honest records in one chunk (label v).
+    fn emit(&mut self, sz: usize, targets: &[usize], label: char, f: &mut dyn FnMut(&[Vec<u8>]) -> Chunks) {
+        let mut labels = String::new();
+        let mut bodies = vec![];
+        for h in 0..3 {
+            if targets.contains(&h) {
+                labels.push(label);
+                bodies.push(show_chunks(&f(&self.base.recs[h])));
+            } else {
+                labels.push('v');
+                bodies.push(show_chunks(&[frames(&self.base.recs[h])]));
+            }
+        }
+        // expectation for queries that complete (labels v / l / s on all helpers): the first sz reports present
+        let present = self.present.unwrap_or(self.base.spec.len()).min(sz);
+        let exp = attribution(&self.base.spec[..present]);
+        self.out.push(format!("c10.query {sz} {} {} {labels} {exp} {}", self.reg, self.base.log.show(), bodies.join(" ")));
+    }
+
+    /// the malformation on all three helpers, and on one helper only (rotating)
+    fn both(&mut self, sz: usize, rot: &mut usize, f: &mut dyn FnMut(&[Vec<u8>]) -> Chunks) {
+        self.emit(sz, &[0, 1, 2], 'm', f);
+        self.emit(sz, &[*rot % 3], 'm', f);
+        *rot += 1;
+    }
+}
+
+/// index of the key-identifier byte of a record built by `q_base` (impression info = 1 byte,
+/// conversion info = site ‖ NUL ‖ 25 bytes)
+fn key_off(rec: &[u8]) -> usize {
+    let info_len = if rec[0] == 0 { 1 } else { "meta.com".len() + 26 };
+    rec.len() - info_len - 1
+}
+
+/// The four reports on which a whole protocol run is cheap enough: one attributed pair, two unmatched.
+fn q_base4(rng: &mut Rng) -> QBase {
+    q_base(&[(0, 12, 5), (1, 13, 1), (0, 11, 3), (1, 11, 2)], rng)
+}
+
+/// Bodies LONGER than query_size on all three helpers (every `ok` is a complete protocol run, ~40 s).
+pub fn gen_query_long(rng: &mut Rng, thorough: bool) -> Vec<String> {
+    let b4 = q_base4(rng);
+    let mut g = QGen { out: vec![], base: &b4, reg: "0,1,2,3", present: None };
+    let all = [0usize, 1, 2];
+    // the first query_size records are honest; behind them, in later chunks: one more honest record and a
+    // cut length header (never polled for: `take(query_size)`)
+    g.emit(3, &all, 'l', &mut |r| vec![frames(&r[..3]), frame(&r[3]), vec![7]]);
+    // behind the first query_size records but in the SAME chunk: try_from rejects the zero-length record
+    // in the poll that parsed the honest ones and the whole poll is an error
+    g.emit(4, &all, 'l', &mut |r| vec![[frames(r), vec![0, 0]].concat()]);
+    g.emit(2, &all, 'l', &mut |r| vec![[frames(&r[..2]), vec![1, 0, 9]].concat()]);
+    if thorough {
+        // longer than query_size in the same chunk: the extra honest record is parsed and dropped;
+        // a cut header / cut record in the same chunk is never looked at
+        g.emit(3, &all, 'l', &mut |r| vec![frames(r)]);
+        g.emit(4, &all, 'l', &mut |r| vec![frames(r), vec![0, 0]]);
+        g.emit(4, &all, 'l', &mut |r| vec![[frames(r), vec![9]].concat()]);
+        g.emit(3, &all, 'l', &mut |r| { let f = frames(r); vec![f[..f.len() - 5].to_vec()] });
+    }
+    g.out
+}
+
+/// Bodies SHORTER than query_size (clean end of stream) on all three helpers.
+pub fn gen_query_short(rng: &mut Rng, thorough: bool) -> Vec<String> {
+    let b4 = q_base4(rng);
+    let mut g = QGen { out: vec![], base: &b4, reg: "0,1,2,3", present: None };
+    let all = [0usize, 1, 2];
+    // no records at all: no chunk, one empty chunk
+    g.present = Some(0);
+    g.emit(4, &all, 's', &mut |_| vec![]);
+    g.emit(1, &all, 's', &mut |_| vec![vec![]]);
+    g.present = Some(3);
+    g.emit(4, &all, 's', &mut |r| vec![frames(&r[..3])]);
+    if thorough {
+        g.present = Some(4);
+        g.emit(1000, &all, 's', &mut |r| vec![frames(r)]);
+        g.present = Some(1);
+        g.emit(4, &all, 's', &mut |r| vec![frames(&r[..1])]);
+        g.present = Some(2);
+        g.emit(4, &all, 's', &mut |r| rechunk(&frames(&r[..2]), 9, rng));
+    }
+    g.out
+}
+
+pub fn gen_query(rng: &mut Rng, thorough: bool) -> Vec<String> {
+    let full = "0,1,2,3";
+    let mut out = vec![];
+    // ---- valid bodies: the whole protocol runs (one attributed pair, two unmatched reports)
+    {
+        let b4 = q_base4(rng);
+        let mut g = QGen { out: vec![], base: &b4, reg: full, present: None };
+        let all = [0usize, 1, 2];
+        g.emit(4, &all, 'v', &mut |r| vec![frames(r)]);
+        if thorough {
+            // arriving in tiny / random chunks (headers and records split)
+            g.emit(4, &all, 'v', &mut |r| rechunk(&frames(r), 5, rng));
+            g.emit(4, &all, 'v', &mut |r| rechunk(&frames(r), 300, rng));
+        }
+        out.append(&mut g.out);
+    }
+    // ---- malformed bodies: errors before any helper-to-helper message, cheap
+    let b2 = q_base(&[(0, 21, 4), (1, 21, 6)], rng);
+    let mut g = QGen { out: vec![], base: &b2, reg: full, present: None };
+    let mut rot = 0usize;
+    let all = [0usize, 1, 2];
+    // zero-length record: alone, first, middle, last, twice, behind an empty chunk
+    g.both(2, &mut rot, &mut |r| vec![vec![], vec![], [frame(&r[0]), vec![0, 0]].concat()]);
+    g.both(2, &mut rot, &mut |_| vec![vec![0, 0]]);
+    g.both(2, &mut rot, &mut |_| vec![vec![0], vec![0]]);
+    g.both(3, &mut rot, &mut |r| vec![[vec![0, 0], frames(r)].concat()]);
+    g.both(3, &mut rot, &mut |r| vec![[frame(&r[0]), vec![0, 0], frame(&r[1])].concat()]);
+    g.both(3, &mut rot, &mut |r| vec![[frames(r), vec![0, 0]].concat()]);
+    g.both(3, &mut rot, &mut |r| vec![frames(r), vec![0, 0]]);
+    g.both(2, &mut rot, &mut |_| vec![vec![0, 0, 0, 0]]);
+    // truncated record: the stream ends inside the second record / inside its length header / right after it
+    for i in 0..2usize {
+        let len = frame(&b2.recs[0][i]).len();
+        for cut in [1usize, 2, 3, len / 2, len - 1] {
+            g.both(2, &mut rot, &mut |r| {
+                let mut b = if i == 1 { frame(&r[0]) } else { vec![] };
+                b.extend_from_slice(&frame(&r[i])[..cut]);
+                vec![b]
+            });
+        }
+    }
+    // truncated record with a matching length prefix (every prefix of both kinds in the all-helpers form,
+    // a selection on one helper), followed by an honest record
+    for i in 0..2usize {
+        let len = b2.recs[0][i].len();
+        let step = if thorough { 1 } else { 7 };
+        let mut cuts: Vec<usize> = (1..len).step_by(step).collect();
+        cuts.extend([2, len - 27, len - 26, len - 3, len - 2, len - 1].into_iter().filter(|c| *c > 0 && *c < len));
+        for n in cuts {
+            g.emit(2, &all, 'm', &mut |r| vec![[frame(&r[i][..n]), frame(&r[1 - i])].concat()]);
+        }
+        for n in [1usize, 48, len - 1] {
+            g.emit(2, &[rot % 3], 'm', &mut |r| vec![[frame(&r[1 - i]), frame(&r[i][..n])].concat()]);
+            rot += 1;
+        }
+    }
+    // trailing garbage inside a record (length prefix covers it)
+    for i in 0..2usize {
+        for extra in [1usize, 2, 26, 300] {
+            let junk = rng.bytes(extra);
+            g.both(2, &mut rot, &mut |r| vec![[frame(&[r[i].clone(), junk.clone()].concat()), frame(&r[1 - i])].concat()]);
+            g.both(2, &mut rot, &mut |r| vec![[frame(&r[1 - i]), frame(&[r[i].clone(), vec![0; extra]].concat())].concat()]);
+        }
+    }
+    // length prefix shorter / longer than the record
+    for i in 0..2usize {
+        for d in [-2i32, -1, 1, 2] {
+            g.both(2, &mut rot, &mut |r| {
+                let n = (r[i].len() as i32 + d) as u16;
+                let mut v = n.to_le_bytes().to_vec();
+                v.extend_from_slice(&r[i]);
+                v.extend(frame(&r[1 - i]));
+                vec![v]
+            });
+        }
+    }
+    // wrong key id byte; registries that lack / permute the key
+    for i in 0..2usize {
+        for kid in [1u8, 2, 3, 4, 127, 128, 255] {
+            g.both(2, &mut rot, &mut |r| {
+                let mut x = r[i].clone();
+                let k = key_off(&x);
+                x[k] = kid;
+                vec![[frame(&r[1 - i]), frame(&x)].concat()]
+            });
+        }
+        // key id inside the info (part of the HPKE info string)
+        g.both(2, &mut rot, &mut |r| {
+            let mut x = r[i].clone();
+            let k = if x[0] == 0 { x.len() - 1 } else { x.len() - 25 };
+            x[k] = 1;
+            vec![[frame(&x), frame(&r[1 - i])].concat()]
+        });
+    }
+    for reg in ["-", "1", "1,0", "3,2,1,0"] {
+        let mut g2 = QGen { out: vec![], base: &b2, reg, present: None };
+        g2.emit(2, &all, 'm', &mut |r| vec![frames(r)]);
+        g.out.append(&mut g2.out);
+    }
+    // every event-type byte, on the impression (all helpers) and the conversion record (one helper / a sample)
+    for b in 1..=255u8 {
+        g.emit(2, &all, 'm', &mut |r| {
+            let mut x = r[0].clone();
+            x[0] = b;
+            vec![[frame(&x), frame(&r[1])].concat()]
+        });
+    }
+    for b in (0..=255u8).filter(|b| *b != 1 && (thorough || [0, 2, 3, 127, 128, 254, 255].contains(b))) {
+        g.emit(2, &[usize::from(b) % 3], 'm', &mut |r| {
+            let mut x = r[1].clone();
+            x[0] = b;
+            vec![[frame(&r[0]), frame(&x)].concat()]
+        });
+    }
+    // a valid stream followed by a cut length header / a cut record that the helper has to read
+    g.both(3, &mut rot, &mut |r| vec![[frames(r), vec![9]].concat()]);
+    g.both(3, &mut rot, &mut |r| vec![frames(r), vec![9]]);
+    g.both(3, &mut rot, &mut |r| vec![[frames(r), vec![9, 0]].concat()]);
+    g.both(3, &mut rot, &mut |r| vec![[frames(r), vec![9, 0, 1, 2, 3]].concat()]);
+    g.both(1000, &mut rot, &mut |r| vec![[frames(r), vec![0xff]].concat()]);
+    // single-bit flips in each field of both records
+    for i in 0..2usize {
+        let len = b2.recs[0][i].len();
+        let k = key_off(&b2.recs[0][i]);
+        for pos in [1usize, 32, 33, 48, 49, 64, 65, 97, 98, k - 1, k + 1, len - 1] {
+            let bit = rng.usize_below(8);
+            g.both(2, &mut rot, &mut |r| {
+                let x = flip(r[i].clone(), 8 * pos + bit);
+                vec![[frame(&r[1 - i]), frame(&x)].concat()]
+            });
+        }
+    }
+    // the kind of error depends on how the body is chunked: record 0 fails in decrypt (key id), record 1 in
+    // try_from (event type) — same poll: the Io error overtakes; separate polls: the decryption error is first
+    for split in [false, true] {
+        g.both(2, &mut rot, &mut |r| {
+            let mut x = r[0].clone();
+            let k = key_off(&x);
+            x[k] = 9;
+            let mut y = r[1].clone();
+            y[0] = 77;
+            if split { vec![frame(&x), frame(&y)] } else { vec![[frame(&x), frame(&y)].concat()] }
+        });
+    }
+    // malformed records delivered in small chunks
+    for _ in 0..(if thorough { 60 } else { 12 }) {
+        let which = rng.below(4);
+        let max = *rng.pick(&[1usize, 3, 64, 400]);
+        let seed = rng.next_u64();
+        g.both(2, &mut rot, &mut |r| {
+            let mut rr = Rng(seed);
+            let body = match which {
+                0 => [frame(&r[0]), vec![0, 0], frame(&r[1])].concat(),
+                1 => { let f = frames(r); f[..f.len() - 1 - rr.usize_below(40)].to_vec() }
+                2 => { let mut x = r[1].clone(); let k = key_off(&x); x[k] = 5; [frame(&r[0]), frame(&x)].concat() }
+                _ => { let n = rr.usize_below(r[0].len()); [frame(&r[0][..n]), frame(&r[1])].concat() }
+            };
+            rechunk(&body, max, &mut rr)
+        });
+    }
+    // garbage bodies
+    for _ in 0..(if thorough { 400 } else { 40 }) {
+        let n = match rng.below(3) { 0 => rng.usize_below(6), 1 => 100 + rng.usize_below(60), _ => rng.usize_below(400) };
+        let mut junk = rng.bytes(n.max(1));
+        if rng.bool() && junk.len() >= 3 {
+            // plausible length prefix and event type
+            let l = u16::try_from(junk.len() - 2).unwrap().to_le_bytes();
+            junk[0] = l[0];
+            junk[1] = l[1];
+            junk[2] = rng.below(2) as u8;
+        }
+        let seed = rng.next_u64();
+        g.both(2, &mut rot, &mut |_| {
+            // independent garbage per helper
+            let mut rr = Rng(seed);
+            let mut j = junk.clone();
+            let p = rr.usize_below(j.len());
+            j[p] ^= 1;
+            vec![j]
+        });
+    }
+    out.append(&mut g.out);
     out
 }
 
